@@ -93,3 +93,30 @@ Theorem c01_a_delivery_hits_no_unchecked_failure :
     ~ ubf (snd (deliver_one beh it w)).
 Proof. exact deliver_one_no_ub. Qed.
 Print Assumptions c01_a_delivery_hits_no_unchecked_failure.
+
+Require Import EV.Sender.
+(* every world reachable by any sequence of calls satisfies, besides all the invariants above, the
+   registry invariants: by-type maps point at live events, every live global event has a listener
+   list, and every event a live handler's Sender can produce is registered *)
+Theorem c01_reachable_worlds_satisfy_registry_invariants :
+  forall (beh : hinfo -> logent -> N -> script) (fuel p : N) (ops : list top_all),
+    ZI (fold_left (run_top_all beh) ops (world0 fuel p)).
+Proof. exact reachable_ZI. Qed.
+Print Assumptions c01_reachable_worlds_satisfy_registry_invariants.
+
+(* whatever calls were made before, with whatever handler behaviour, the next call - spawn, insert,
+   remove, despawn, send, send_to, add/remove handler, add/remove component or event - does not reach
+   an unchecked failure anywhere (no stale location, freed archetype, unregistered event, missing
+   listener list, stale cache entry, wrong column or row): it returns normally or with a documented panic *)
+Theorem c01_no_call_on_a_reachable_world_fails_unchecked :
+  forall (beh : hinfo -> logent -> N -> script) (fuel p : N) (ops : list top_all) (o : top_all),
+    ~ ubf (snd (run_top_res beh (fold_left (run_top_all beh) ops (world0 fuel p)) o)).
+Proof. exact no_call_fails_unchecked. Qed.
+Print Assumptions c01_no_call_on_a_reachable_world_fails_unchecked.
+
+(* World::get on a reachable world never indexes out of bounds *)
+Theorem c01_get_on_a_reachable_world_is_checked :
+  forall (beh : hinfo -> logent -> N -> script) (fuel p : N) (ops : list top_all) (e : key) (ktag : N),
+    ~ is_ub (op_get e ktag (fold_left (run_top_all beh) ops (world0 fuel p))).
+Proof. exact reachable_get_ok. Qed.
+Print Assumptions c01_get_on_a_reachable_world_is_checked.
